@@ -13,6 +13,9 @@ fn main() {
         }
         return;
     }
+    if args.len() >= 3 && args[1] == "sub" {
+        std::process::exit(sv::props::sub(&args[2..]));
+    }
     if args.len() >= 3 && args[1] == "replay" {
         std::process::exit(sv::diag::replay_file(&args[2]));
     }
